@@ -38,14 +38,23 @@ ASSUMPTIONS = [
     "hits sorted by time, one common dt, positive length, channel < len(adc_to_pe); gap_threshold > left+right "
     "extension (asserted by strax); extensions multiples of dt; max_duration >= longest hit + 2*left + right",
     "a split that keeps the merged span <= max_duration but exceeds strax's conservative estimate (left extension "
-    "counted twice) is accepted either way (class dur_band)",
+    "counted twice) is accepted either way (classes split_band / dur_band_ambiguous)",
     "sum_waveform input: records of one dt cut from pulses, hits with time/length equal to their integration "
-    "region inside one pulse, sorted by time; peaks from find_peaks on the hit cores",
-    "down-sampling drops a fractional tail (documented in store_downsampled_waveform); the oracle models that",
-    "merge_peaks input: >=2 disjoint time-sorted peaks, dt multiples of a base dt; replace_merged input: disjoint "
-    "sorted originals, merged intervals disjoint, sorted, no original touched by two of them",
+    "region inside one pulse, sorted by time; peaks from find_peaks on the hit cores; only hits whose core lies in a peak",
+    "down-sampling drops a fractional tail (documented in store_downsampled_waveform); the oracle models that; in "
+    "split_peaks a child may therefore end up to one of its own (coarser) samples early, and with do_iterations > 1 "
+    "a down-sampled intermediate child may have lost < ceil(parent samples / buffer) original samples",
+    "merge_peaks input: >=2 disjoint time-sorted peaks, dt multiples of a base dt; waveform / geometry are compared "
+    "exactly only when all peak times are aligned to the coarsest dt, otherwise only start, end band, areas, n_hits",
+    "replace_merged input: disjoint sorted originals; merged intervals disjoint, sorted, each covering at least one "
+    "original, no original touched by two of them (what merge_peaks produces)",
     "waveform helpers: non-negative samples, area field consistent with the data, fractions ascending in [0, 1]; "
-    "highest_density_region amplitudes are checked for only_upper_part=True (the documented meaning) only",
+    "area-fraction indices on a plateau of the cumulative area (zero samples) may be anywhere on the plateau",
+    "natural_breaks_gof: the filter wing in samples is taken as filter_wing_width // dt - 1 (strax's reading of "
+    "'as close as we can get'); waveforms with zero spread are skipped (division by zero)",
+    "highest_density_region: fractions ascending in (0, 1], total area > 0 (else ValueError is demanded), "
+    "_buffer_size in {1, 2, 3, 10}; amplitudes are checked for only_upper_part=True (the documented meaning) only, "
+    "for only_upper_part=False the region is checked as a validity predicate (top set, holds >= fraction, minimal by level)",
 ]
 
 N_CH = 4
@@ -93,7 +102,7 @@ def st_hitset(draw, max_n=12):
     return dict(dt=dt, t0=draw(st.integers(0, 5)), hits=hits, le=le, re=re, gap_k=k, gap_odd=odd,
                 maxdur=draw(st.one_of(st.none(), st.integers(0, 30))),
                 min_area=draw(st.sampled_from([0, 0, 0, 1, 5, 2.5])), min_ch=draw(st.sampled_from([1, 1, 1, 2, 3])),
-                to_pe=draw(st.integers(0, 1)), groups=draw(st.sampled_from([False, False, False, True])))
+                to_pe=draw(st.integers(0, 1)), groups=False)
 
 
 def hits_of(d):
@@ -231,13 +240,28 @@ def run_find_peaks(d):
     return dict(nt=len(got) >= 2 or bool(kinds & {"dur", "band"}), classes=sorted(classes))
 
 
+def enum_groups(tier, seed):
+    """find_peak_groups on seeded hit sets - thorough tier only (it compiles find_peaks for the default peak dtype)."""
+    if tier != "thorough":
+        return
+    rng = np.random.RandomState(7919 * seed + 19)
+    for _ in range(6000):
+        n = int(rng.randint(1, 13))
+        hi = int(rng.choice([3, 7, 12]))
+        yield dict(dt=int(rng.choice([1, 2, 10])), t0=int(rng.randint(0, 6)),
+                   hits=[[int(rng.randint(0, hi + 1)), int(rng.randint(1, 6)), int(rng.randint(0, N_CH)), int(rng.randint(0, len(AREAS)))]
+                         for _ in range(n)],
+                   le=int(rng.randint(0, 3)), re=int(rng.randint(0, 3)), gap_k=int(rng.randint(1, 6)), gap_odd=bool(rng.randint(0, 2)),
+                   maxdur=None if rng.randint(0, 3) == 0 else int(rng.randint(0, 31)), min_area=0, min_ch=1, to_pe=0, groups=True)
+
+
 @signature("F17_duration_split_overlap")
 def _sig_f17(sub, desc, bucket, message):
     """find_peaks: a split forced by max_duration between two hits closer than left+right extension gives two
     peaks whose extensions overlap."""
     if bucket != "clause:find_peaks.peaks_overlap" or "[dur-split-closer-than-extensions]" not in message:
         return False
-    if sub not in ("find_peaks",):
+    if sub not in ("find_peaks", "peak_groups"):
         return False
     lst, _ = hits_of(desc)
     le, re, gap, maxdur = fp_params(desc)
@@ -591,8 +615,7 @@ def st_merge(draw):
         for a, b in iv:  # at least one selected peak per merge (strax raises otherwise)
             if not any(mask[a:b]):
                 mask[a + draw(st.integers(0, b - a - 1))] = True
-    return dict(pl=pl, iv=iv, mask=mask, et=draw(st.sampled_from([False, False, False, True])),
-                buf=draw(st.sampled_from([None, 4096])))
+    return dict(pl=pl, iv=iv, mask=mask, et=False, buf=draw(st.sampled_from([None, 4096])))
 
 
 def build_peaks(pl, dtype=PEAK_DTYPE):
@@ -733,6 +756,9 @@ def enum_merge(tier, seed):
             pl = dict(b=int(rng.choice([1, 2, 10])), t0=int(rng.randint(0, 3)), aligned=bool(k % 2 == 0), peaks=peaks)
             for iv in _interval_sets(n):
                 yield dict(pl=pl, iv=iv, mask=None, et=False, buf=4096)
+                if tier == "thorough":
+                    # dtype with an `endtime` field (a second set of numba specialisations: thorough tier only)
+                    yield dict(pl=pl, iv=iv, mask=None, et=True, buf=4096)
                 if tier == "thorough" and iv:
                     inside = [j for a, b in iv for j in range(a, b)]
                     for bits in itertools.product([False, True], repeat=len(inside)):
@@ -743,8 +769,7 @@ def enum_merge(tier, seed):
                             yield dict(pl=pl, iv=iv, mask=m, et=False, buf=4096)
 
 
-# replace_merged on plain intervals with free-form merged intervals
-IV_DTYPE = np.dtype(strax.interval_dtype + [(("row id", "id"), np.int64)])
+# replace_merged with free-form merged intervals (rows of the peak dtype, `n_hits` serves as row id)
 
 
 @st.composite
@@ -778,9 +803,10 @@ def run_replace(d):
     u = d["unit"]
 
     def arr(rows, off):
-        x = np.zeros(len(rows), dtype=IV_DTYPE)
+        x = np.zeros(len(rows), dtype=PEAK_DTYPE)
         for i, (a, b) in enumerate(rows):
-            x[i]["time"], x[i]["length"], x[i]["dt"], x[i]["channel"], x[i]["id"] = a * u, b - a, u, i % 3, off + i
+            x[i]["time"], x[i]["length"], x[i]["dt"], x[i]["channel"], x[i]["n_hits"] = a * u, b - a, u, i % 3, off + i
+            x[i]["area"] = 1.5 * (off + i)
         return x
 
     O, M = arr(d["orig"], 0), arr(d["merge"], 1000)
@@ -797,16 +823,16 @@ def run_replace(d):
     M = M[keep]
     touched = [[j for j, (c, e) in enumerate(mlist) if a < e and c < b] for a, b in d["orig"]]
     out = strax.replace_merged(O, M)
-    rows = [(int(m["time"]), 1, int(m["id"])) for m in M] + [(int(o["time"]), 0, int(o["id"])) for o, t in zip(O, touched) if not t]
+    rows = [(int(m["time"]), 1, int(m["n_hits"])) for m in M] + [(int(o["time"]), 0, int(o["n_hits"])) for o, t in zip(O, touched) if not t]
     rows.sort()
     classes = set()
     if not len(M):
         check(len(out) == len(O) and out.tobytes() == O.tobytes(), "replace.no_merge_not_identity", d)
         return dict(nt=False, classes=["nothing_to_merge"])
-    check(len(out) == len(rows), "replace.count", (d, out["id"].tolist(), [r[2] for r in rows]))
-    check(out["id"].tolist() == [r[2] for r in rows], "replace.rows_or_order", (d, out["id"].tolist(), [r[2] for r in rows]))
-    byid = {int(x["id"]): x.tobytes() for x in np.concatenate([O, M])}
-    check(all(o.tobytes() == byid[int(o["id"])] for o in out), "replace.row_changed", d)
+    check(len(out) == len(rows), "replace.count", (d, out["n_hits"].tolist(), [r[2] for r in rows]))
+    check(out["n_hits"].tolist() == [r[2] for r in rows], "replace.rows_or_order", (d, out["n_hits"].tolist(), [r[2] for r in rows]))
+    byid = {int(x["n_hits"]): x.tobytes() for x in np.concatenate([O, M])}
+    check(all(o.tobytes() == byid[int(o["n_hits"])] for o in out), "replace.row_changed", d)
     check(bool(np.all(np.diff(out["time"]) >= 0)), "replace.not_sorted", (d, out["time"].tolist()))
     if any(not t for t in touched):
         classes.add("untouched_kept")
@@ -1127,19 +1153,23 @@ def _sig_f30(sub, desc, bucket, message):
             and "[hole-of-one-sample-after-natural-breaks-split]" in message)
 
 
+# Every worker process compiles the numba functions it touches from scratch (private caches): ~3 CPU-minutes for
+# all of C19.  Eight shards per sub-check keep the total compile bill down; the tiny enumerations ride along.
+S = 8
 SUBCHECKS = [
-    SubCheck("find_peaks", run_find_peaks, strategy=st_hitset, quick=6000, thorough=300000),
-    SubCheck("sum_waveform", run_sum_waveform, strategy=st_world, quick=4000, thorough=150000),
-    SubCheck("split", run_split, strategy=st_split, quick=3000, thorough=100000),
-    SubCheck("merge", run_merge, strategy=st_merge, quick=3000, thorough=150000),
-    SubCheck("merge_exh", run_merge, enumerate=enum_merge, exhaustive_in=("quick", "thorough")),
-    SubCheck("replace", run_replace, strategy=st_replace, quick=3000, thorough=100000),
-    SubCheck("sma", run_sma, strategy=st_sma, quick=2000, thorough=100000),
-    SubCheck("sma_exh", run_sma, enumerate=enum_sma, exhaustive_in=("quick", "thorough")),
-    SubCheck("gof", run_gof, strategy=st_gof, quick=2000, thorough=60000),
-    SubCheck("gof_exh", run_gof, enumerate=enum_gof, exhaustive_in=("quick", "thorough")),
-    SubCheck("fractions", run_frac, strategy=st_frac, quick=2000, thorough=60000),
-    SubCheck("fractions_exh", run_frac, enumerate=enum_frac, exhaustive_in=("quick", "thorough")),
-    SubCheck("hdr", run_hdr, strategy=st_hdr, quick=2000, thorough=60000),
-    SubCheck("hdr_exh", run_hdr, enumerate=enum_hdr, exhaustive_in=("quick", "thorough")),
+    SubCheck("find_peaks", run_find_peaks, strategy=st_hitset, quick=6000, thorough=320000, shards=S),
+    SubCheck("peak_groups", run_find_peaks, enumerate=enum_groups, shards=S),
+    SubCheck("sum_waveform", run_sum_waveform, strategy=st_world, quick=4000, thorough=200000, shards=S),
+    SubCheck("split", run_split, strategy=st_split, quick=3000, thorough=120000, shards=S),
+    SubCheck("merge", run_merge, strategy=st_merge, quick=3000, thorough=160000, shards=S),
+    SubCheck("merge_exh", run_merge, enumerate=enum_merge, exhaustive_in=("quick", "thorough"), shards=S),
+    SubCheck("replace", run_replace, strategy=st_replace, quick=3000, thorough=100000, shards=S),
+    SubCheck("sma", run_sma, strategy=st_sma, quick=2000, thorough=60000, shards=S),
+    SubCheck("sma_exh", run_sma, enumerate=enum_sma, exhaustive_in=("quick", "thorough"), shards=S),
+    SubCheck("gof", run_gof, strategy=st_gof, quick=2000, thorough=80000, shards=S),
+    SubCheck("gof_exh", run_gof, enumerate=enum_gof, exhaustive_in=("quick", "thorough"), shards=S),
+    SubCheck("fractions", run_frac, strategy=st_frac, quick=2000, thorough=80000, shards=S),
+    SubCheck("fractions_exh", run_frac, enumerate=enum_frac, exhaustive_in=("quick", "thorough"), shards=S),
+    SubCheck("hdr", run_hdr, strategy=st_hdr, quick=2000, thorough=80000, shards=S),
+    SubCheck("hdr_exh", run_hdr, enumerate=enum_hdr, exhaustive_in=("quick", "thorough"), shards=S),
 ]
